@@ -196,7 +196,7 @@ fn earlier_calls_leg(rep: &mut Report) {
         agg.add("earlier_call_pairs", 1);
         if r[1] != alone_ref[j] {
             agg.viol("archive-depends-on-earlier-calls-in-the-process", || json!({"writer": "library", "first": {"cfg": opts_ref[i]["cfg"], "comp": opts_ref[i]["comp"], "hash_len": opts_ref[i]["hash_len"]},
-                "second": {"cfg": opts_ref[j]["cfg"], "comp": opts_ref[j]["comp"], "hash_len": opts_ref[j]["hash_len"]}, "second_archive": r[1], "second_archive_written_alone": alone_ref[j]}));
+                "second": {"cfg": opts_ref[j]["cfg"], "comp": opts_ref[j]["comp"], "hash_len": opts_ref[j]["hash_len"]}, "second_archive": r[1], "second_archive_written_alone": alone_ref[j], "first_spec": opts_ref[i], "second_spec": opts_ref[j]}));
         }
         agg
     });
@@ -1125,6 +1125,19 @@ pub fn accessor_check(bytes: &[u8], agg: &mut Agg, detail: &dyn Fn(&str, Value) 
 }
 
 pub fn replay(pid: &str, v: &Value) -> bool {
+    if v.get("second_spec").is_some() {
+        // the archive of the second option set written after the first one in a fresh process, and alone
+        let exe = std::env::current_exe().unwrap();
+        let run = |list: Vec<&Value>| -> Vec<Value> {
+            let arg = Value::Array(list.into_iter().cloned().collect()).to_string();
+            let o = std::process::Command::new(&exe).args(["lib-compress-seq", &arg]).output().expect("child");
+            serde_json::from_str(String::from_utf8_lossy(&o.stdout).lines().last().unwrap_or("[]")).unwrap_or_default()
+        };
+        let both = run(vec![&v["first_spec"], &v["second_spec"]]);
+        let alone = run(vec![&v["second_spec"]]);
+        println!("replay: after the first {:?}, alone {:?}", both.get(1), alone.first());
+        return both.get(1) != alone.first();
+    }
     if v.get("level").and_then(|l| l.as_str()) == Some("L0") {
         return crate::clonechecks::replay("C03", v);
     }
